@@ -92,6 +92,13 @@ def gen_hier(rnd: random.Random, nvars: int, force: str | None = None) -> dict:
             v["shape"] = n
             one = (lambda: float(rnd.randint(0, 6))) if fam == "poisson" else ((lambda: pos_val(rnd)) if fam == "gamma" else (lambda: real_val(rnd)))
             v["value"] = one() if n == 0 else [one() for _ in range(n)]
+            if fam != "poisson" and "ref" not in d["params"].get("loc", {}) and rnd.random() < (0.5 if force == "matrix" else 0.12):
+                # matrix-valued observation: log_prob is a 2-d array
+                v["shape"] = [2, 3]
+                v["value"] = [[one() for _ in range(3)] for _ in range(2)]
+            elif fam == "normal" and "ref" in d["params"]["loc"] and d["params"]["loc"]["ref"] not in vecs and rnd.random() < 0.12:
+                v["shape"] = [2, 3]
+                v["value"] = [[one() for _ in range(3)] for _ in range(2)]
             v["dist"] = d
             v["role"] = "obs"
         elif r < 0.45 and (reals or poss):
@@ -223,7 +230,10 @@ def gen_positions(rnd: random.Random, prog: dict, nsteps: int) -> list[dict]:
                     one = lambda: pos_val(rnd)
                 else:
                     one = lambda: real_val(rnd)
-                pos[v["name"]] = one() if v["shape"] == 0 else [one() for _ in range(v["shape"])]
+                if isinstance(v["shape"], list):
+                    pos[v["name"]] = [[one() for _ in range(v["shape"][1])] for _ in range(v["shape"][0])]
+                else:
+                    pos[v["name"]] = one() if v["shape"] == 0 else [one() for _ in range(v["shape"])]
             for fd in prog["free"]:
                 if rnd.random() < 0.4:
                     fam = fd["dist"]["fam"]
